@@ -41,7 +41,20 @@ def gen_case(r, kind):
     c["sub"] = 1 if r.random() < 0.2 else 0
     # simulation_running() is a constant of the engine (true for MD engines, false for VMD/post-processing)
     c["running"] = 0 if kind == "norun" else 1
+    c["outvel"] = 1 if r.random() < 0.3 else 0
+    c["outen"] = 1 if r.random() < 0.3 else 0
     nsteps = r.randint(10, 28)
+    if kind == "badconfig":
+        # one input check of init_extended_Lagrangian fails (or, one time in five, none does)
+        which = r.choice(["temp", "tol", "tau", "damping", "none"])
+        if which != "none":
+            c[which] = r.choice([0.0, -1.0, -0.125]) if which != "damping" else r.choice([-1.0, -0.125])
+        c["damping"] = c["damping"] if which == "damping" else 0.0
+        c["tau"] = c["tau"] if which == "tau" else 16.0 * c["dt"] * c["tsf"]
+        c["events"] = [{"boundary": 0, "running": 1, "x": 1.0, "fb": 0.0, "fba": 0.0} for _ in range(3 if which == "none" else 0)]
+        c["gauss"] = [0.0]
+        c["bad"] = which
+        return c
     if kind == "drift":
         return gen_drift(r, c)
     if kind == "realbias":
@@ -110,6 +123,13 @@ def gen_case(r, kind):
         gl.append(V.dyadic(r, -3, 3, bits=5))
     c["events"] = ev
     c["gauss"] = gl
+    if kind == "free" and c["tsf"] == 1 and r.random() < 0.6 and len(ev) > 6:
+        # the engine declares a new initial step in the middle of the session: the number of steps since the last update no longer
+        # equals the factor and update_extended_Lagrangian() raises its factor error (the update is skipped, the bias force stays on the atoms)
+        jj = r.randint(3, len(ev) - 2)
+        if not ev[jj]["boundary"] and awake_steps(c)[jj - 1][1] >= 2:
+            # (at least two steps done: the new relative step 1 can be taken neither for a repetition nor for the successor of the last update)
+            c["setstep_at"] = (jj, r.choice([0, 100, 1000]))
     return c
 
 
@@ -145,7 +165,23 @@ def gen_realbias(r, c):
     (bypasses by default; with the user's setting on/off)"""
     c["tsf"], c["same"], c["sub"], c["damping"] = 1, 0, 0, 0.0
     c["lower"], c["upper"], c["rlo"], c["rup"], c["per"] = 0.0, 2.0, 0, 0, 0
-    kind = r.choice(["harmonic", "linear", "harmonicWalls", "harmonicWalls", "harmonicWalls"])
+    kind = r.choice(["harmonic", "linear", "harmonicWalls", "harmonicWalls", "harmonicWalls", "abf", "metadynamics", "abmd", "opes_metad", "histogram", "alb"])
+    generic = {"abf": ["fullSamples 2", "historyFreq 0"], "metadynamics": ["hillWeight 0.5", "hillWidth 1.0", "newHillFrequency 2"],
+               "abmd": ["forceConstant 2.0", "stoppingValue 1.75"], "opes_metad": ["barrier 5", "newHillFrequency 2", "gaussianSigma 0.2"], "histogram": [],
+               "alb": ["centers 1.0", "updateFrequency 4"]}
+    if kind in generic:
+        # the force is read from the bias object itself (its physics belongs to other properties); what is checked is its routing
+        c["biases"] = [{"kw": kind, "k": 0.0, "user": None, "generic": True, "body": generic[kind]}]
+        c["lower"], c["upper"] = 0.0, 2.0
+        x = V.dyadic(r, 0.5, 1.5, bits=6)
+        ev = []
+        for t in range(r.randint(12, 24)):
+            if t > 0 and r.random() < 0.8:
+                x = min(1.9, max(0.1, x + V.dyadic(r, -0.25, 0.25, bits=6)))
+            ev.append({"boundary": 0, "running": 1, "x": x, "fb": 0.0, "fba": 0.0})
+        c["events"] = ev
+        c["gauss"] = [0.0]
+        return c
     k = r.choice([0.5, 1.0, 2.0])
     b = {"kw": kind, "k": k, "user": None}
     if kind == "harmonic":
@@ -194,9 +230,20 @@ def fill_real_forces(c, recs, table):
     for e, rec in zip(c["events"], recs):
         if rec is None:
             return False
-        F = bias_force(c, b, bypass, rec["x_rep"], e["x"])
+        bf = [t_ for t_ in rec.get("bf", []) if t_[0] == b["kw"].lower()]
+        if len(bf) != 1 or bool(bf[0][2]) != bypass:
+            c["bf_problem"] = "bias object reports %r, the table/user setting gives bypass=%r" % (bf, bypass)
+            return False
+        if b.get("generic"):
+            F = bf[0][1]
+        else:
+            F = bias_force(c, b, bypass, rec["x_rep"], e["x"])
+            if not close(F, bf[0][1]):
+                c["bf_problem"] = "documented force %r on the value the bias must see, the bias computed %r" % (F, bf[0][1])
+                return False
         e["fb"], e["fba"] = (0.0, F) if bypass else (F, 0.0)
     c["bypass"] = bypass
+    c["nonzero_bias_force"] = any(e_["fb"] != 0.0 or e_["fba"] != 0.0 for e_ in c["events"])
     return True
 
 
@@ -204,15 +251,26 @@ def awake_steps(c):
     """(engine step index, absolute step) for the steps on which the variable is awake"""
     out = []
     it = 0
+    ss = c.get("setstep_at")
     for j, e in enumerate(c["events"]):
+        if ss and j == ss[0]:
+            it = ss[1]                                    # the engine declares a new initial step (relative step counter restarts)
         if j > 0 and not e["boundary"]:
             it += 1
         out.append((j, it, it % c["tsf"] == 0))
     return out
 
 
+def step_origin(c, j):
+    """absolute step of relative step 0 at engine step j (changes when the engine declares a new initial step)"""
+    ss = c.get("setstep_at")
+    return ss[1] if (ss and j >= ss[0]) else 0
+
+
 def scenario(c, tag):
-    L = ["echo CASE %s" % tag, "natoms 1", "dt %r" % c["dt"], "temperature 300", "samestep %d" % c["same"], "prefix",
+    auto = c.get("auto_state") and c.get("resume_at") is not None
+    L = ["echo CASE %s" % tag, "natoms 1", "dt %r" % c["dt"], "temperature 300", "samestep %d" % c["same"],
+         ("prefix %s" % tag) if auto else "prefix", "restartfreq %d" % (c["auto_state"] if auto else 0),
          "gauss " + " ".join(hx(g) for g in c["gauss"]), "xnew", "config EOF", "scriptedColvarForces on",
          "colvar {", "  name v", "  timeStepFactor %d" % c["tsf"],
          "  lowerBoundary %r" % c["lower"], "  upperBoundary %r" % c["upper"], "  width %r" % c["width"],
@@ -224,6 +282,10 @@ def scenario(c, tag):
         L.append("  reflectingUpperBoundary on")
     if c["sub"]:
         L.append("  subtractAppliedForce on")
+    if c.get("outvel"):
+        L.append("  outputVelocity on")
+    if c.get("outen"):
+        L.append("  outputEnergy on")
     L += ["  distanceZ {", "    main { atomNumbers 1 }", "    ref { dummyAtom (0,0,0) }", "    axis (0,0,1)"]
     if c["per"]:
         L += ["    period %r" % c["P"], "    wrapAround %r" % c["ctr"]]
@@ -248,11 +310,16 @@ def scenario(c, tag):
     for j, e in enumerate(c["events"]):
         if K is not None and j == K:
             break
+        if c.get("setstep_at") and j == c["setstep_at"][0]:
+            L.append("setstep %d" % c["setstep_at"][1])
         L += ev_lines(e)
     if K is not None:
         # events 0..K-1 have been executed; event K-1 is executed again by a new object that loaded the state saved after it
-        st = "%s.state" % tag
-        L += ["save text %s" % st]
+        st = ("%s.colvars.state" % tag) if auto else ("%s.state" % tag)
+        if not auto:
+            L += ["save text %s" % st]                      # otherwise: the file written from within calc() at the last step
+        else:
+            L += ["prefix", "restartfreq 0"]
         if c.get("reload"):
             # the same session goes on for two steps, then loads the state it saved (no new object)
             for dv in (0.125, -0.25):
@@ -296,7 +363,7 @@ def model_line(c, restart=None):
             continue
         e = c["events"][j]
         rnd = c["gauss"][gu[j]] if gu[j] is not None else 0.0
-        st = it - (restart[1] if restart is not None else 0)
+        st = it - (restart[1] if restart is not None else step_origin(c, j))
         xj = e["x"] + (c.get("restart_shift", 0.0) if (restart is not None and j == restart[0]) else 0.0)
         ins.append("%d %s %s %s %s %d" % (st, hx(xj), hx(tsf * e["fb"]), hx(tsf * e["fba"]), hx(rnd), e["running"]))
     rs = "0 0x0p+0 0x0p+0 0x0p+0 0" if restart is None else "1 %s %s %s %d" % (hx(restart[2]), hx(restart[3]), hx(restart[4] if len(restart) > 4 else 0.0), restart[1])
@@ -335,6 +402,11 @@ def parse_impl(out):
                 res[cur][1].append(rec)
             except ValueError:
                 res[cur][1].append(None)
+        elif w[0] == "BF" and len(w) == 4 and res[cur][1] and res[cur][1][-1] is not None:
+            try:
+                res[cur][1][-1].setdefault("bf", []).append((w[1], float.fromhex(w[2]), int(w[3])))
+            except ValueError:
+                pass
     return res
 
 
@@ -343,6 +415,7 @@ def parse_model(line):
     hw = parts[0].split()
     prm = [float.fromhex(t) for t in hw[:4]]
     prm.append(int(hw[4]) if len(hw) > 4 else 0)
+    prm.append(int(hw[5]) if len(hw) > 5 else 1)
     steps = []
     for p in parts[1:]:
         w = p.split()
@@ -447,6 +520,15 @@ def oracles(run, c, recs, scn, first_event=0, resumed=False):
             if not (x == clamp(c, e["x"]) and v == 0.0):
                 run.violation("init:start", "the first step starts from (%r,%r), not from the clamped value %r of the variable and zero velocity" % (x, v, clamp(c, e["x"])), rep)
                 return
+        if c.get("setstep_at") and j == c["setstep_at"][0] and prev is not None and prev[2] >= 2:
+            # (after earlier repetitions of step 0 or 1 the new relative step 1 is a legitimate successor: no error then)
+            # factor guard: relative step it - origin, last update at relative step prev: error iff their difference is neither 0 nor the factor
+            run.dist("steps-raising-the-factor-error")
+            if not rec["err"] or not close(rec["fz"], tsf * (e["fb"] + e["fba"])) or rec["x_ext"] != rec["x_rep"]:
+                run.violation("mts:factor-error-step", "the engine restarted the step counter at %d: the step must raise the timeStepFactor error (%r), skip the update (coordinate %r -> %r) and leave the bias force on the atoms (%r, expected %r)"
+                              % (c["setstep_at"][1], rec["err"], rec["x_rep"], rec["x_ext"], rec["fz"], tsf * (e["fb"] + e["fba"])), rep)
+                return
+            break
         # -- energies and forces of this step refer to (x_t, v_t-1/2 + half kick)
         d = pdiff(c, x - e["x"])
         F = e["fb"] - k * d
@@ -724,6 +806,21 @@ def compare(run, c, tag, scn, impl, mline, mout, first_event=None):
     resumed = first_event is not None
     first_event = first_event or 0
     ok, recs = impl.get(tag, (False, []))
+    if c.get("kind") == "badconfig":
+        try:
+            valid = bool(parse_model(mout)[0][5])
+        except Exception:
+            valid = None
+        want = (c["bad"] == "none")
+        run.dist("config-checks:%s" % c["bad"])
+        if ok != want:
+            run.violation("config:validation", "extendedTemp %r, extendedFluctuation %r, extendedTimeConstant %r, extendedLangevinDamping %r: the configuration is %s"
+                          % (c["temp"], c["tol"], c["tau"], c["damping"], "accepted" if ok else "refused"), {"kind": "scenario", "scenario": scn})
+            return None
+        if valid is not None and valid != ok:
+            run.mismatch("config:valid", {"scenario": scn, "model_case": mline}, ok, valid)
+        if not ok:
+            return None
     nexp = len(c["events"]) - first_event if resumed else (c.get("resume_at") or len(c["events"]))
     if not ok or len(recs) != nexp:
         run.mismatch("scenario:run", {"scenario": scn}, "config_ok=%s records=%d" % (ok, len(recs)), "%d engine steps" % nexp)
@@ -777,7 +874,7 @@ def compare(run, c, tag, scn, impl, mline, mout, first_event=None):
 MSTEPS = {}
 
 
-KINDS = ["realbias", "free", "free", "frozen", "frozen", "reflect", "reflect", "reflect", "langevin", "periodic", "mixed", "mixed", "narrow", "norun", "drift"]
+KINDS = ["badconfig", "realbias", "free", "free", "frozen", "frozen", "reflect", "reflect", "reflect", "langevin", "periodic", "mixed", "mixed", "narrow", "norun", "drift"]
 
 
 def witness_cases():
@@ -820,10 +917,14 @@ def add_resume(r, c):
     nxt = [K for K in cand if ev[K]["boundary"]]
     if nxt and r.random() < 0.4:
         cand = nxt                                           # the restart step is repeated at a run boundary
-    if not cand or c["kind"] in ("drift", "drift-twin", "realbias"):
+    if not cand or c["kind"] in ("drift", "drift-twin", "realbias", "badconfig") or c.get("setstep_at"):
         return
     c["resume_at"] = r.choice(cand)
     m = r.random()
+    it_k = aw[c["resume_at"] - 1][1]
+    if m > 0.7 and it_k >= 1:
+        c["auto_state"] = it_k                             # colvarsRestartFrequency: the state written from within calc() at that step
+        return
     if m < 0.15:
         c["reload"] = 1                                    # the state is loaded back into the same session two steps later
     elif m < 0.35 and c["running"]:
@@ -864,7 +965,7 @@ def check(run):
     if st is None:
         return
     model, exes = st
-    sim = exes["c17sim"]
+    sim = os.environ.get("VERIF_C17_SIM", exes["c17sim"])    # (coverage measurements: an instrumented build of the same harness)
     d = V.scratch("C17")
     # documented: only harmonicWalls and histogram implement bypassExtendedLagrangian, harmonicWalls enables it by default
     documented = {"harmonicwalls": (1, 1), "histogram": (1, 0)}
@@ -909,7 +1010,9 @@ def check(run):
             ok_, recs_ = impl.get(tag, (False, []))
             if ok_ and len(recs_) == len(c["events"]) and fill_real_forces(c, recs_, table):
                 jobs[n_] = (tag, c, L, model_line(c), fe)
-                run.dist("real-bias:%s:%s" % (c["biases"][0]["kw"], "bypass" if c["bypass"] else "on-coordinate"))
+                run.dist("real-bias:%s:%s%s" % (c["biases"][0]["kw"], "bypass" if c["bypass"] else "on-coordinate", "" if c["nonzero_bias_force"] else ":zero-force"))
+            elif c.get("bf_problem"):
+                run.violation("routing:bias-flag-or-force", "bias %s on an extended variable: %s" % (c["biases"][0]["kw"], c["bf_problem"]), {"kind": "scenario", "scenario": L})
     rc, mout, e = V.run_lines(model, [ml for (tag, c, L, ml, fe) in jobs])
     allrecs = {}
     amps = {}
@@ -952,7 +1055,7 @@ def check(run):
         aw = awake_steps(c)
         sx = sv = xs = None
         try:
-            for l_ in open(os.path.join(d, "%s.state" % tag)):
+            for l_ in open(os.path.join(d, ("%s.colvars.state" if c.get("auto_state") else "%s.state") % tag)):
                 w_ = l_.split()
                 if len(w_) == 2 and w_[0] == "extended_x":
                     sx = float(w_[1])
@@ -1001,6 +1104,8 @@ def check(run):
                 run.mismatch("state:saved_xv", {"scenario": scn, "model_case": jobs[i][3], "engine_step": K - 1}, (sx, sv), (ms[K - 1]["saved_x"], ms[K - 1]["saved_v"]))
         if c.get("reload"):
             run.dist("resumed: state loaded back into the same session")
+        if c.get("auto_state"):
+            run.dist("resumed: from the automatic restart file (written inside calc())")
         # -- the consistency check of the restarted job
         shift = c.get("restart_shift", 0.0)
         want_refused = bool(aw[K - 1][2] and c["running"] and pdiff(c, shift) ** 2 / c["width"] ** 2 > 0.25)
@@ -1029,6 +1134,18 @@ def check(run):
         impl_r = {tag: (ok2, recs2)}
         compare(run, cs, tag, scn, impl_r, rlines[n_], rmout[n_] if n_ < len(rmout) else "", first_event=K - 1)
         oracles(run, cs, recs2, scn, first_event=K - 1, resumed=True)
+    # -- hideJacobian and extendedLagrangian exclude each other (the silent Jacobian correction of update_forces_energy never meets the extended path)
+    def hj_scn(tag_, ext, hj):
+        return ["echo CASE %s" % tag_, "natoms 2", "dt 1.0", "temperature 300", "samestep 0", "prefix", "restartfreq 0", "xnew", "config EOF",
+                "colvar {", "  name v", "  width 0.25"] + (["  extendedLagrangian on", "  extendedFluctuation 0.5", "  extendedTemp 300"] if ext else []) + \
+               ["  lowerBoundary 0", "  upperBoundary 4", "  distance {", "    group1 { atomNumbers 1 }", "    group2 { atomNumbers 2 }", "  }", "}",
+                "abf {", "  colvars v", "  fullSamples 10"] + (["  hideJacobian on"] if hj else []) + ["}", "EOF"]
+    hj = run_impl(sim, [("hj_both", hj_scn("hj_both", 1, 1)), ("hj_only", hj_scn("hj_only", 0, 1)), ("hj_ext", hj_scn("hj_ext", 1, 0))], d)
+    got = tuple(bool(hj.get(t_, (False, []))[0]) for t_ in ("hj_both", "hj_only", "hj_ext"))
+    run.dist("hideJacobian-exclusion-checked")
+    if got != (False, True, True):
+        run.violation("config:hideJacobian-extendedLagrangian", "ABF on a distance variable with (hideJacobian+extendedLagrangian, hideJacobian, extendedLagrangian) is accepted = %r; expected (False, True, True): "
+                      "the two options exclude each other" % (got,), {"kind": "scenario", "scenario": hj_scn("hj_both", 1, 1)})
     # -- thorough tier: stationary second moments of the thermostatted coordinate on the implementation alone
     if not quick:
         lcs = langevin_stat_cases(r, 12000)
